@@ -148,6 +148,9 @@ def _default_values(names):
 def _structures(tier):
     if tier == "quick":
         yield from (("Q", off, 6, nvar, miss) for off in (0, 2) for nvar in (1, 2) for miss in ((), (2,)))
+        # variants with DIFFERENT missing patterns (a period missing in one variant only, near either end)
+        yield ("Q", 0, 6, 2, ((1, 0),))
+        yield ("Q", 1, 6, 2, ((4, 1),))
         yield ("I", 0, 5, 1, ())
         yield ("Y", 0, 4, 1, (1,))
         yield ("M", 10, 15, 1, ())
@@ -155,6 +158,8 @@ def _structures(tier):
         yield ("D", 366, 7, 1, (3,))        # 28 Dec 2024 .. 3 Jan 2025 (out of a leap year)
     else:
         yield from (("Q", off, 6, nvar, miss) for off in range(4) for nvar in (1, 2) for miss in ((), (2,), (3,)))
+        yield from (("Q", off, 6, 2, miss) for off in (0, 3) for miss in (((1, 0),), ((4, 1),), ((1, 0), (4, 1)), ((0, 1),), ((5, 0),)))
+        yield from (("M", 3, 15, 2, miss) for miss in (((2, 0),), ((12, 1),)))
         yield from (("H", off, 6, 1, miss) for off in range(2) for miss in ((), (2,)))
         yield from (("Y", 0, 5, nvar, miss) for nvar in (1, 2) for miss in ((), (1,)))
         yield from (("I", off, 6, 1, miss) for off in (0, -12) for miss in ((), (2,)))
@@ -313,7 +318,7 @@ def _cum_roundtrip(ir, x, cum, func, shift, direction):
 
 def replay(case):
     ir = load_irispie()
-    fr, off, n, nvar, miss = case["freq"], case["offset"], case["n"], case["nvar"], tuple(case["miss"])
+    fr, off, n, nvar, miss = case["freq"], case["offset"], case["n"], case["nvar"], tuple(tuple(m_) if isinstance(m_, list) else m_ for m_ in case["miss"])
     f = _FREQS[fr][1]
     start = _start(ir, fr, off)
     vals = {k: float(Fraction(a, b)) for k, (a, b) in case["values"].items()}
